@@ -156,5 +156,5 @@ def search(ctx):
 
 
 def replay(ctx, rep):
-    print(rep.get("what")); print("events:", (rep.get("input") or {}).get("events")); print("expected", rep.get("expected"), "observed", rep.get("observed"))
+    print(rep.get("what")); print("input:", rep.get("input")); print("expected", rep.get("expected"), "observed", rep.get("observed"))
     return 1
